@@ -10,7 +10,8 @@ PROPS_FILE = 'Props/C08.v'
 RULE = ('files written from random trees (1..25 nodes; root names sharing letters with child names), one or two trees per file; '
         'reads with every node path x 3 tree options x with/without leading slash, paths not in the file (missing leaf, missing '
         'middle, prefix of a name, name extended), and no path; sha256 before/after each read; non-trivial = distinct (file, path, '
-        'option) with a non-root path')
+        'option) with a non-root path; plus a stream of files holding nodes of a self-rooting downstream class and a Custom '
+        '(composition) node with tree children: every node path x 3 options x leading slash')
 MODELLED = ['payload templates with content tokens', 'byte immutability under open mode r is HDF5 business (open modes come from the generated table)']
 ASSUMPTIONS = ['files written by emdfile from valid trees']
 NAMES = ['rot', 'origin', 'table', 'raw', 'a', 'b', 'ro', 't', 'array', 'o', 'root2', 'x y', 'é', 'e\u0301', 'peaks_5\u212b', '\u2126']
@@ -64,7 +65,17 @@ def _run_selfroot(args):
             def __init__(self, *a, **kw):
                 emd.Array.__init__(self, *a, **kw)
                 emd.Root(name=self.name + '_own_root').tree(self)          # attaches itself to a root of its own
-        mod = types.ModuleType('emdverif_selfroot'); mod._emd_hook = True; mod.Scan = Scan
+        class Box(emd.Custom):
+            # a composition class: one emd attribute, stored inside its group next to its tree children
+            def __init__(self, name='box', n=3):
+                emd.Custom.__init__(self, name=name)
+                self.part = emd.Array(np.arange(n), name='part')
+            @classmethod
+            def _get_constructor_args(cls, group):
+                return {'name': os.path.basename(group.name), 'n': 3}
+            def _populate_instance(self, group):
+                pass
+        mod = types.ModuleType('emdverif_selfroot'); mod._emd_hook = True; mod.Scan = Scan; mod.Box = Box
         sys.modules['emdverif_selfroot'] = mod
         n0, n1, n2 = c['names']
         root = emd.Root(name='root')
@@ -76,13 +87,16 @@ def _run_selfroot(args):
         for d in range(c['depth']):
             nd = emd.Node(name='plain%d' % d); cur.tree(nd); cur = nd; path.append(nd.name)
         b = Scan(data=np.ones(4), name=n1); cur.tree(b, force=True)
+        # a Custom (composition) node below the last plain node, with tree children of its own
+        bx = Box(name=n2); cur.tree(bx)
+        bx.tree(emd.Array(np.arange(4.0), name='in')); bx.tree('in').tree(emd.Node(name='deep'))
         p = os.path.join(scratch, 'selfroot_%d.h5' % os.getpid())
         out = {'reads': []}
         with core.quiet():
             emd.save(p, root, mode='o')
             full = emd.read(p)
             full = full if isinstance(full, emd.Root) else full.root
-        targets = [[n0], path + [n1]] + ([[n0, 'kid']] if c['kid'] else []) + [path[:1]]
+        targets = [[n0], path + [n1]] + ([[n0, 'kid']] if c['kid'] else []) + [path[:1]] + [path + [n2], path + [n2, 'in'], path + [n2, 'in', 'deep']]
         for tp in targets:
             want = full.tree('/'.join(tp))
             for tr in (True, False, None):
